@@ -68,8 +68,12 @@ func WaitRecv(ch interface{}) {
 		return
 	}
 	// class "sync": a yield point BEFORE the operation is attempted (never between
-	// the readiness test below and the operation itself, which must not block)
-	Y(SiteSyncAcq)
+	// the readiness test below and the operation itself, which must not block;
+	// and not in a task that was woken out of Select as the partner of a
+	// rendezvous: it runs this one statement without holding the run token)
+	if !rdvInProgress() {
+		Y(SiteSyncAcq)
+	}
 	v := reflect.ValueOf(ch)
 	p := v.Pointer()
 	if p != 0 && v.Cap() == 0 {
@@ -87,7 +91,9 @@ func WaitSend(ch interface{}) {
 	if !Active() {
 		return
 	}
-	Y(SiteSyncAcq)
+	if !rdvInProgress() {
+		Y(SiteSyncAcq)
+	}
 	v := reflect.ValueOf(ch)
 	if p := v.Pointer(); p != 0 && v.Cap() == 0 {
 		rendezvous(p, true)
@@ -131,6 +137,9 @@ var (
 	rdvPeerSend bool
 	Rendezvous  int64
 )
+
+//go:norace
+func rdvInProgress() bool { return rdvActive }
 
 //go:norace
 func findPend(p uintptr, send bool) int {
